@@ -518,7 +518,14 @@ func (sp *spaceRules) probe(p *bounds.Probe) {
 		return
 	}
 	// (5) write windows of the producer side
-	if sp.producer(fn) || fn == sp.reserve {
+	// a helper without cursor stores of its own is on the side of the method it runs under
+	onProducerSide := false
+	for i := 0; i < p.Frames(); i++ {
+		if f := p.Fn(i); sp.producer(f) || f == sp.reserve {
+			onProducerSide = true
+		}
+	}
+	if onProducerSide {
 		var l bounds.Lin
 		have := false
 		what := ""
